@@ -117,6 +117,11 @@ def c20(tier):
         mc_replay(c, model, cfg, "byte ranges of components vs. pointer offsets of returned slices; allocation deltas")
     for model, cfg in cfgs("mc/MC_Auth", tier, [""]):
         mc_replay(c, model, cfg, "authority sub-component ranges")
+    for model, cfg in cfgs("mc/MC_Paths", tier, [""]):
+        mc_replay(c, model, cfg, "segments, first/last/file name/directory/parent: sub-slices of the input, no allocation "
+                                 "(paths of up to 33 segments, beyond any inline buffer)")
+    for model, cfg in cfgs("mc/MC_SegIter", tier, [""]):
+        mc_replay(c, model, cfg, "double-ended segment iteration allocates nothing")
     return c.finish(rule="every enumerated valid text: allocation delta of parse+accessors must be 0 and every "
                          "returned slice must sit at the byte range computed by spec/Ranges.tla",
                     assumptions=TRUST + ["counting #[global_allocator] in the harness (thread-local counter)"])
@@ -319,6 +324,10 @@ def c13(tier):
     c.add_tlc(r, "complete: L(U) = L(I) /\\ ASCII* for the 9 URI/IRI type pairs; X = X-reference with a scheme, both families")
     r2 = run_tlc("mc/MC_RefDfaEq", name="MC_RefDfaEq", coverage=False)
     c.add_tlc(r2, "the membership accelerator equals the RFC regexes")
+    vlib.gen_dfa()
+    r3 = run_tlc("mc/MC_LangEq", name="MC_LangEq", coverage=False)
+    c.add_tlc(r3, "the implementation's cached DFAs accept exactly the RFC languages the facts above are about (so the "
+                  "facts hold of what the code accepts)")
     for model, cfg in cfgs("mc/MC_Parts", tier, ["", "iri"]):
         mc_replay(c, model, cfg, "conversions between the four kinds on every enumerated valid reference (borrowed and owned)")
     for model, cfg in cfgs("mc/MC_Editor", tier, [""]):
@@ -346,6 +355,8 @@ def c14(tier):
         mc_replay(c, model, cfg, "bounded-exhaustive strings through every route")
     for model, cfg in cfgs("mc/MC_Equiv", tier, [""]):
         mc_replay(c, model, cfg, "comparison with plain strings is plain text comparison, on groups of equivalent spellings")
+    for model, cfg in cfgs("mc/MC_DataUrl", tier, [""]):
+        mc_replay(c, model, cfg, "data URLs: TryFrom / FromStr / serde routes accept exactly what the validating constructor accepts")
     return c.finish(rule="C01's words through Display/Debug/as_str/as_bytes/AsRef/Borrow/From/into_*/to_owned/Clone/Serialize and "
                          "FromStr/TryFrom/from_vec/serde (str, string, bytes, byte_buf, borrowed)/serde_json",
                     assumptions=TRUST + ["serde_json, serde::de::value deserializers"])
